@@ -78,6 +78,56 @@ func apiProbes() []probe {
 			var f func()
 			return nject.Sequence("p", func() func() { return func() {} }, func(g func()) {}).Bind(&f, nil)
 		}},
+		{"nil func as provider (bind, then invoke)", func() error {
+			var nf func() T0
+			var f func() T0
+			if err := nject.Sequence("p", nf, func(a T0) T0 { return a }).Bind(&f, nil); err != nil {
+				return err
+			}
+			f()
+			return nil
+		}},
+		{"nil func as final function", func() error {
+			var nf func(T0) T1
+			var f func(T0) T1
+			if err := nject.Sequence("p", nf).Bind(&f, nil); err != nil {
+				return err
+			}
+			f(T0{})
+			return nil
+		}},
+		{"reflect.Type value as a literal", func() error {
+			var f func() T0
+			return nject.Sequence("p", reflect.TypeOf(7), func() T0 { return T0{} }).Bind(&f, nil)
+		}},
+		{"reflect.Type value consumed", func() error {
+			var f func() string
+			if err := nject.Sequence("p", reflect.TypeOf(7), func(t reflect.Type) string { return t.String() }).Bind(&f, nil); err != nil {
+				return err
+			}
+			f()
+			return nil
+		}},
+		{"two TerminalErrors in one provider (bind, then invoke)", func() error {
+			var f func() error
+			err := nject.Sequence("p", func() (nject.TerminalError, nject.TerminalError, T0) { return nil, nil, T0{Tag: 7} }, func(a T0) error { return nil }).Bind(&f, nil)
+			if err != nil {
+				return err
+			}
+			_ = f()
+			return nil
+		}},
+		{"two TerminalErrors, the second set", func() error {
+			var f func() error
+			err := nject.Sequence("p", func() (T0, nject.TerminalError, nject.TerminalError) { return T0{}, nil, fmt.Errorf("second") }, func(a T0) error { return nil }).Bind(&f, nil)
+			if err != nil {
+				return err
+			}
+			if f() == nil {
+				return nil // (reported below as accepted: a set TerminalError that stops nothing is a C07 matter)
+			}
+			return nil
+		}},
 		{"Singleton+Memoize", func() error {
 			var f func() T0
 			return nject.Sequence("p", nject.Memoize(nject.Singleton(func() T0 { return T0{} })), func(a T0) T0 { return a }).Bind(&f, nil)
